@@ -1,6 +1,6 @@
 (** C14 — tie by translation: Statistics.__add__ / mean / variance / INVALID_STATISTICS as translated from the CURRENT
     source of physt/statistics.py (tools/pytrans.py -> Gen/PyStats.v) are the model's functions. *)
-From Physt Require Import TieBase PyStats Arith ScaleCases TieStats.
+From Physt Require Import TieBase PyStats Arith ScaleCases StatsCases TieStats.
 
 Theorem C14_tie_add : forall a b, to_stats (g_ps_add xarith a b) = stats_add (to_stats a) (to_stats b).
 Proof. exact gen_stats_add_is_model. Qed.
@@ -24,3 +24,8 @@ Example C14_tie_example :
   xeqb (g_ps_mean xarith s) (Fin (qz 2)) = true /\ xeqb (g_ps_variance xarith s) (Fin (mkq 2 3)) = true /\
   g_ps_mean xarith (g_ps_default xarith) = NaN /\ ps_min (g_ps_add xarith s (g_ps_INVALID xarith)) = NaN.
 Proof. vm_compute. repeat split; reflexivity. Qed.
+
+(** the statistics update inside Histogram1D.fill (translated from the current source of histogram1d.py) is the model's fill_stats *)
+Theorem C14_tie_fill : forall s v w, to_stats (g_fill_stats xarith s (Fin v) (Fin w)) = fill_stats (to_stats s) v w.
+Proof. exact gen_fill_stats_is_model. Qed.
+Print Assumptions C14_tie_fill.
